@@ -47,6 +47,8 @@ def run(pid, tier):
         import quantile
         zig.collect(o, pid, tier, toy=False)
         quantile.collect(o, pid, tier)
+        import rejection
+        rejection.collect_beta(o, pid, tier)
         w = [json.loads(x) for x in lines]
         same = sum(1 for e in w if e.get('wa') == e.get('wb'))
         o.extra['wire_events'] = len(w); o.extra['judged_same_word_count'] = same
@@ -65,6 +67,9 @@ def run(pid, tier):
             'inverse-CDF samplers (Cauchy, Pareto, Weibull, Gumbel, Frechet, Triangular): the LAW is decided at the anchors of spec/QuantileTable.tla (42 dyadic parameter points x 9 probabilities '
             '2^-20 .. 1-2^-20 x f32/f64) as an exact ticket count against the documented CDF bracketed at x(1 -/+ 2^-20), resolution two steps of the uniform draw; the table itself is mpmath output '
             '(tools/gen_quantile_table.py, 60 digits) whose order/median sanity TLC checks; f64 counts rest on monotonicity inside each half of the word range, checked on ~150 sorted words per half',
+            'Beta<f32> (Cheng BB and BC, both parameter orders, both sides of min(a,b) = 1): the LAW is decided as an exact ticket count over the 2^24 x 2^24 lattice of proposal and acceptance word '
+            '(output = function of the proposal word, acceptance region = prefix of the acceptance lattice, both checked by probes) against the regularised incomplete beta function at the anchors of '
+            'spec/BetaTable.tla (mpmath), slack 2^-20; Beta<f64> is NOT decided (2^53 proposal values cannot be enumerated)',
             'ONLY the composition layer is decided for the remaining families: ChiSquared, StudentT, FisherF, Pert, Exp, Gamma(shape <= 1), Normal(0,1) are the documented functions of the crate\'s own primitives '
             '(StandardNormal, Exp1, Gamma with shape > 1, Beta) evaluated with the public API on a clone of the stream',
             'NOT decided: the laws of the primitives themselves (ziggurat: structure only, C06; Marsaglia-Tsang, Cheng BB/BC, Michael-Schucany-Haas, the inverse-CDF one-liners) and of every family not listed; '
